@@ -38,7 +38,9 @@ func c16Sizes() []struct {
 	return []struct {
 		name string
 		peg  uint64
-	}{{"1", 1}, {"b/3", bankPEG / 3}, {"b/2", bankPEG / 2}, {"b-1", bankPEG - 1}, {"b", bankPEG}, {"b+1", bankPEG + 1}, {"3b", 3 * bankPEG}}
+	}{{"1", 1}, {"b/3", bankPEG / 3}, {"b/2", bankPEG / 2}, {"b-1", bankPEG - 1}, {"b", bankPEG}, {"b+1", bankPEG + 1}, {"3b", 3 * bankPEG},
+		// a request of a few units next to a whale of 12 banks: its proportional share floors to 0 while its refund (several units) does not
+		{"10u", 10}, {"12b", 12 * bankPEG}}
 }
 
 func c16Era(kind string) drive.Era {
